@@ -232,6 +232,13 @@ func RunKProg(k contract.KContext, self string, prog []KOp) (string, int, error)
 				return tr.String(), 0, err
 			}
 			fmt.Fprintf(&tr, "put %s/%s;", b, op.K)
+		case "cp":
+			// data dependency: the value written depends on the value read
+			v, _ := k.Get(b, []byte(op.K))
+			if err := k.Put(b, []byte(op.V), append([]byte("cp:"), v...)); err != nil {
+				return tr.String(), 0, err
+			}
+			fmt.Fprintf(&tr, "cp %s/%s->%s;", b, op.K, op.V)
 		case "del":
 			if err := k.Del(b, []byte(op.K)); err != nil {
 				return tr.String(), 0, err
